@@ -656,3 +656,159 @@ def memo_rule(P, R, rule, prefixes, what):
                        "the earlier answer (%s)" % (f.path, st, key or "nothing", gaps, what), loc=f.loc())
     R.count("memo_guards", n)
     return n
+
+
+# ------------------------------------------------------------------------------------------------ control-guard normal form
+# (first written for C13 by a sub-agent; shared here unchanged so that other modules need not import a property module)
+def guards_of(fn, idx, stop=None):
+    """Guards under which nodes()[idx] is evaluated, innermost first, up to the function root (or the node `stop`), seen through
+    inlined helpers.  Each guard is a dict:
+      {"kind": "cond", "e": cond, "truth": bool}           an `if`: inside then (True) / else (False), or *after* an `if` whose
+                                                           then-branch diverges (False) / whose else-branch diverges (True)
+      {"kind": "pat", "e": init, "pat": pat, "truth": b}   `let pat = init else {..}`: after it (True) or inside the else (False)
+      {"kind": "arm", "e": scrut, "pat": pat, "arm": arm, "match": m}    inside the body of a source-level match arm, or after
+                                                           a `match` statement all of whose other arms diverge
+      {"kind": "arg", "e": receiver, "method": name, "call": node}       inside an argument (value or closure) of receiver.method(..)
+    `if let` shows up as kind "cond" with e = LetExpr (see `atomic_facts`)."""
+    acc = fn.nodes()
+    out = []
+    child = idx
+    p = acc[idx][1]
+    while p >= 0:
+        n = acc[p][0]
+        c = acc[child][0]
+        if stop is not None and c is stop:
+            break
+        k = n.get("k")
+        if k == "Arm":
+            pp = acc[p][1]
+            while pp >= 0 and acc[pp][0].get("k") != "Match":
+                pp = acc[pp][1]
+            m = acc[pp][0] if pp >= 0 else None
+            if m is not None and _guards_within(n.get("body"), c) and m.get("src") == "Normal":
+                out.append({"kind": "arm", "e": m["scrut"], "pat": n["pat"], "arm": n, "match": m})
+        elif k == "If":
+            if _guards_within(n.get("then"), c):
+                out.append({"kind": "cond", "e": n["cond"], "truth": True, "node": n})
+            elif "else" in n and _guards_within(n.get("else"), c):
+                out.append({"kind": "cond", "e": n["cond"], "truth": False, "node": n})
+        elif k == "Let" and "els" in n and _guards_within(n["els"], c):
+            out.append({"kind": "pat", "e": n.get("init"), "pat": n["pat"], "truth": False, "node": n})
+        elif k == "MethodCall" and any(a is c for a in n["args"]):
+            # a value (or closure) handed to a method of the receiver: `recv.ok_or_else(|| ..)`, `recv.ok_or(..)`, `recv.filter(|x| ..)`
+            out.append({"kind": "arg", "e": n["recv"], "method": n["method"], "call": n, "closure": c.get("k") == "Closure"})
+        elif k == "Block":
+            for s in n.get("stmts", []):
+                if s is c or _guards_within(s, c):
+                    break
+                if s.get("k") == "Let" and "els" in s:
+                    out.append({"kind": "pat", "e": s.get("init"), "pat": s["pat"], "truth": True, "node": s})
+                    continue
+                e = strip(s.get("e")) if s.get("k") == "Stmt" else None
+                if e is not None and e.get("k") == "If":
+                    if diverges(e.get("then")) and not diverges(e.get("else")):
+                        out.append({"kind": "cond", "e": e["cond"], "truth": False, "node": e})
+                    elif "else" in e and diverges(e.get("else")) and not diverges(e.get("then")):
+                        out.append({"kind": "cond", "e": e["cond"], "truth": True, "node": e})
+                elif e is not None and e.get("k") == "Match" and e.get("src") == "Normal":
+                    # `match x { A => {}, B => continue }` as a statement: afterwards the arm that falls through was the one taken
+                    through = [a for a in e["arms"] if not diverges(a["body"])]
+                    if len(through) == 1 and len(e["arms"]) > 1:
+                        out.append({"kind": "arm", "e": e["scrut"], "pat": through[0]["pat"], "arm": through[0], "match": e})
+        child = p
+        p = acc[p][1]
+    return out
+
+
+
+def _guards_within(root, node):
+    if root is None:
+        return False
+    st = [root]
+    while st:
+        x = st.pop()
+        if x is node:
+            return True
+        if isinstance(x, dict):
+            st.extend(v for v in x.values() if isinstance(v, (dict, list)))
+        elif isinstance(x, list):
+            st.extend(v for v in x if isinstance(v, (dict, list)))
+    return False
+
+
+
+def strip(e):
+    """expression without the wrappers that carry no meaning (temporaries scope, parentheses, trivial blocks)"""
+    while e is not None:
+        k = e.get("k")
+        if k in ("DropTemps", "Paren", "Use") and "e" in e:
+            e = e["e"]
+        elif k == "BlockExpr" and not e["b"].get("stmts") and "tail" in e["b"]:
+            e = e["b"]["tail"]
+        elif k in ("Call", "MethodCall") and "inl" in e and strip(e["inl"]["body"]) is not e["inl"]["body"]:
+            e = e["inl"]["body"]        # an inlined helper whose body is a single expression stands for that expression
+        else:
+            break
+    return e
+
+
+
+def diverges(e):
+    """does control never fall out of the end of this expression/block (`continue`, `return`, `break`, `panic!` ...)"""
+    if e is None:
+        return False
+    if e.get("t") == "!":
+        return True
+    k = e.get("k")
+    if k in ("Ret", "Continue", "Break"):
+        return True
+    if k == "BlockExpr":
+        return diverges(e["b"])
+    if k == "Block":
+        for s in e.get("stmts", []):
+            x = s.get("e") if s.get("k") == "Stmt" else None
+            if x is not None and diverges(x):
+                return True
+        return diverges(e.get("tail"))
+    if k in ("DropTemps", "Paren", "Use"):
+        return diverges(e.get("e"))
+    return False
+
+
+
+
+def exits_before(fn, idx):
+    """statements that precede nodes()[idx] inside its innermost enclosing loop body (or the function body) and can leave that
+    body early — they contain a `continue` / `break` / `return` that is not inside a nested loop or closure.  When such a
+    statement exists, nodes()[idx] is not evaluated for every iteration: [(stmt node, kind of exit)]"""
+    acc = fn.nodes()
+    out = []
+    child = idx
+    p = acc[idx][1]
+    while p >= 0:
+        n = acc[p][0]
+        c = acc[child][0]
+        k = n.get("k")
+        if k == "Block":
+            for st in n.get("stmts", []):
+                if st is c or _guards_within(st, c):
+                    break
+                stack = [st]
+                while stack:
+                    y = stack.pop()
+                    if isinstance(y, list):
+                        stack.extend(y)
+                        continue
+                    if not isinstance(y, dict):
+                        continue
+                    yk = y.get("k")
+                    if yk in ("Closure",) or (yk == "Loop" and y is not st):
+                        continue
+                    if yk in ("Continue", "Break", "Ret") and not y.get("x"):
+                        out.append((st, yk))
+                    stack.extend(v for v in y.values() if isinstance(v, (dict, list)))
+        elif k in ("Loop", "Closure"):
+            break
+        child = p
+        p = acc[p][1]
+    return out
